@@ -108,7 +108,8 @@ type VestWorld struct {
 	ViaAuthz   int
 	msgNo      int
 	// Tx: the transaction layer (txmode.go); the zero value means every message runs through RunMsg
-	Tx TxMode
+	Tx  TxMode
+	win *txWindow
 }
 
 func NewVestWorld(vts []VType) *VestWorld {
@@ -173,8 +174,24 @@ func (v *VestWorld) NextFresh() sdk.AccAddress {
 // carrying the message.  What the message does must not depend on who submitted it.
 func (v *VestWorld) Run(msg sdk.Msg) MsgResult {
 	v.msgNo++
+	msg = WireForm(v.App, msg)
+	if v.win != nil {
+		res := v.runDirect(msg)
+		v.win.ok = append(v.win.ok, res.OK())
+		return res
+	}
 	if res, done := v.runViaTx(msg); done {
 		return res
+	}
+	return v.runDirect(msg)
+}
+
+// runDirect executes msg with RunMsg (directly or wrapped into an x/authz MsgExec); inside a
+// transaction window it also records what was executed.
+func (v *VestWorld) runDirect(msg sdk.Msg) MsgResult {
+	if v.win != nil {
+		v.win.msgs = append(v.win.msgs, msg)
+		return RunMsg(v.App, v.Ctx, msg)
 	}
 	if v.AuthzEvery > 0 && v.msgNo%v.AuthzEvery == 0 && strings.HasPrefix(sdk.MsgTypeURL(msg), "/chain4energy") {
 		var signers []sdk.AccAddress
